@@ -139,6 +139,12 @@ func runC01(c *core.Ctx) {
 		c.Count("keytype:float", 1)
 		runKVCase(c, kind, FKeyDom(c.R.Range(4, 12)), floatKey, func(m *KVMon[float64, int]) { m.Map = true; m.Bidi = m.Inv != nil })
 		return
+	case kt == 7 && (c.Index/30)%2 == 1:
+		// int keys from the whole range of the type: negatives, both extremes,
+		// pairs further apart than MaxInt (comparison by subtraction wraps)
+		c.Count("keytype:wide-int", 1)
+		runKVCase(c, kind, WideIntDom(c.R, c.R.Range(4, 14)), wideIntKey, setup)
+		return
 	case kt == 9:
 		c.Count("keytype:struct", 1)
 		runKVCase(c, kind, StructDom(c.R.Range(4, 14)), structKey, func(m *KVMon[SK, int]) { m.Map = true; m.Bidi = m.Inv != nil })
